@@ -370,6 +370,6 @@ if __name__ == "__main__":
     import sys
 
     # unbounded recursion (the progressive decider on a recursive grammar, F38) ends in RecursionError either way; a lower
-    # limit only makes those runs end sooner (a program of depth 40 needs < 400 frames)
-    sys.setrecursionlimit(700)
+    # limit only makes those runs end sooner (the deepest programs the checks ask for, depth 8 with nested lists and tuples, need well under 200 frames)
+    sys.setrecursionlimit(450)
     main(handler)
